@@ -55,19 +55,22 @@ ItemBase  == 1000
 \* sub/m2 additionally has a public function s.
 LibMods   == {"m2", "sub/m2"}
 LibBase(m) == IF m = "m2" THEN 2000 ELSE 3000          \* the module itself (target of an accessor)
-LibOff    == [a |-> 1, c |-> 2, A |-> 3, C |-> 4, k |-> 5, R |-> 9, mk |-> 12]   \* public values (A, C, R: constructors; mk: sub/m2 only)
+LibOff    == [a |-> 1, c |-> 2, A |-> 3, C |-> 4, k |-> 5, R |-> 9, mk |-> 12, N |-> 13]   \* public values (A, C, R: constructors; mk: sub/m2 only)
 OffTypeT  == 6                          \* `pub type T { W }`: same spelling as m1's own type
 OffTypeA  == 7                          \* `pub type A { A(a: Int) C }`: the type A (the constructor A is LibOff.A)
 OffFieldA == 8                          \* ... and its labelled field a
 \* `pub type R { R(f: Int) }` (both modules): a record with a field every variant has, so `value.f` is legal.
 \* sub/m2 imports m2 and has `pub fn mk() -> m2.R { m2.R(f: 1) }`: a module that imports ONLY sub/m2 can hold a value
 \* whose type - and whose field f - is declared in a module it does not import (`acc.mk().f`).
+\* `type N { M }` (private) and `pub type M { N }`: the name N is a PRIVATE type and a PUBLIC constructor (of the type M), the name
+\* M a public type and a private constructor - visibility belongs to a declaration, not to a name.  `import m.{N}` brings in
+\* the constructor N; the constructor M is no member of the module.
 OffTypeR  == 10
 OffFieldF == 11
 LibVal(m, n) == LibBase(m) + LibOff[n]
 LibPrivate == {"p", "Q"}                 \* private function p; constructor Q of the private type P
 \* what `acc.` offers: the public functions and constructors of the module
-LibMembers(m) == {"a", "c", "A", "C", "W", "R"} \cup (IF m = "sub/m2" THEN {"s", "mk"} ELSE {})
+LibMembers(m) == {"a", "c", "A", "C", "W", "R", "N"} \cup (IF m = "sub/m2" THEN {"s", "mk"} ELSE {})
 
 \* One import:  import <m> [.{ item }] [as <as>]
 \*   u = "unq"       .{c}             the function c
@@ -77,7 +80,8 @@ LibMembers(m) == {"a", "c", "A", "C", "W", "R"} \cup (IF m = "sub/m2" THEN {"s",
 \*       "typealias" .{type T as L}   the type T of the library under the name L (m1's own type T, if declared, is a
 \*                                    different declaration with the original spelling)
 \*       "unqctoralias" .{A as E}  the constructor A under the name E (A itself is then NOT in scope)
-UnqKinds == {"none", "unq", "unqalias", "unqctor", "unqctoralias", "unqtype", "typealias"}
+\*       "unqctorn"  .{N}             the public constructor N (its spelling is also that of a private type)
+UnqKinds == {"none", "unq", "unqalias", "unqctor", "unqctoralias", "unqctorn", "unqtype", "typealias"}
 Imp(m, as, u) == [m |-> m, as |-> as, u |-> u]
 \* the accessor an import brings into scope: the alias if there is one, else the last path segment - `m2` for both modules
 AccOf(i) == IF i.as # "" THEN i.as ELSE "m2"
@@ -148,6 +152,7 @@ Imported(name) ==
     ELSE IF name = "d" /\ UnqAt("unqalias") # 0 THEN LibVal(UnqMod("unqalias"), "c")
     ELSE IF name = "A" /\ UnqAt("unqctor") # 0 THEN LibVal(UnqMod("unqctor"), "A")
     ELSE IF name = "E" /\ UnqAt("unqctoralias") # 0 THEN LibVal(UnqMod("unqctoralias"), "A")
+    ELSE IF name = "N" /\ UnqAt("unqctorn") # 0 THEN LibVal(UnqMod("unqctorn"), "N")
     ELSE 0
 TypeItem == LET idx == {i \in 1..Len(items) : items[i].k = "type"} IN IF idx = {} THEN 0 ELSE CHOOSE i \in idx : TRUE
 HasType  == TypeItem # 0
@@ -166,9 +171,9 @@ ModuleValue(name) == IF ItemId(name) # 0 THEN ItemId(name) ELSE IF CtorId(name) 
 Resolve(name) == IF Local(name) # 0 THEN Local(name) ELSE ModuleValue(name)
 
 \* `c` is written whether or not it is imported (unbound otherwise); `d` only when some import declares it
-RefNames == Names \cup {"c"} \cup (IF UnqAt("unqalias") # 0 THEN {"d"} ELSE {}) \cup (IF UnqAt("unqctoralias") # 0 THEN {"E"} ELSE {})
+RefNames == Names \cup {"c"} \cup (IF UnqAt("unqalias") # 0 THEN {"d"} ELSE {}) \cup (IF UnqAt("unqctoralias") # 0 THEN {"E"} ELSE {}) \cup (IF UnqAt("unqctorn") # 0 THEN {"N"} ELSE {})
 \* (a local may be spelled like a module accessor - q, r, m2 - see shadow_acc_*: then it is a visible value name)
-Visible  == {n \in Names \cup SpareNames \cup {"c", "d", "T", "V", "Ok", "Z", "A", "E", "q", "r", "m2"} : Resolve(n) # 0}
+Visible  == {n \in Names \cup SpareNames \cup {"c", "d", "T", "V", "Ok", "Z", "A", "E", "N", "q", "r", "m2"} : Resolve(n) # 0}
 \* module accessors in scope for `name.`: every import brings its module in under the last segment of its path, `as q`
 \* under the alias ONLY; AccMod: the module an accessor stands for
 Accessors == {AccOf(imps[k]) : k \in 1..Len(imps)}
@@ -176,7 +181,7 @@ AccMod(acc) == imps[CHOOSE k \in 1..Len(imps) : AccOf(imps[k]) = acc].m
 VisibleModules == Accessors
 HeaderLabel ==
     LET UL(u) == CASE u = "none" -> "" [] u = "unq" -> ".{c}" [] u = "unqalias" -> ".{c as d}" [] u = "unqctor" -> ".{A}"
-                   [] u = "unqctoralias" -> ".{A as E}" [] u = "unqtype" -> ".{type A}" [] u = "typealias" -> ".{type T as L}"
+                   [] u = "unqctoralias" -> ".{A as E}" [] u = "unqctorn" -> ".{N}" [] u = "unqtype" -> ".{type A}" [] u = "typealias" -> ".{type T as L}"
         IL(i) == i.m \o UL(i.u) \o (IF i.as # "" THEN " as " \o i.as ELSE "")
     IN IF Len(imps) = 0 THEN "none" ELSE IF Len(imps) = 1 THEN IL(imps[1]) ELSE IL(imps[1]) \o " + " \o IL(imps[2])
 
@@ -316,6 +321,7 @@ ImportToks(i) ==
              [] i.u = "unqctor" -> <<Plain("."), Plain("{"), Tok("A", "impname", V("A"), {}), Plain("}")>>
              [] i.u = "unqctoralias" -> <<Plain("."), Plain("{"), Tok("A", "impname", V("A"), {}), Plain("as"),
                                           Tok("E", "impalias", V("A"), {}), Plain("}")>>
+             [] i.u = "unqctorn" -> <<Plain("."), Plain("{"), Tok("N", "impname", V("N"), {}), Plain("}")>>
              [] i.u = "unqtype" -> <<Plain("."), Plain("{"), Plain("type"), Tok("A", "impname", base + OffTypeA, {}), Plain("}")>>
              [] i.u = "typealias" -> <<Plain("."), Plain("{"), Plain("type"), Tok("T", "impname", base + OffTypeT, {}), Plain("as"),
                                        Tok("L", "impalias", base + OffTypeT, {}), Plain("}")>>)
@@ -466,7 +472,7 @@ Step ==
                /\ Emit(Tok(n, "ref", Resolve(n), Visible))
                /\ todo' = Rest /\ UNCHANGED <<frames, pending, budget>>
        [] h.s = "QUALIFIED" ->
-            /\ \E acc \in Pick(Accessors), n \in Pick({"a", "c", "p", "k", "A", "Q", "R"}) :
+            /\ \E acc \in Pick(Accessors), n \in Pick({"a", "c", "p", "k", "A", "Q", "R", "N"}) :
                  /\ out' = out \o <<Tok("FIELD_ACCESS", "open", 0, {}),
                                     Tok(acc, "modref", LibBase(AccMod(acc)), Visible), Plain("."),
                                     Tok(n, "qref", IF n \in LibPrivate THEN 0 ELSE LibVal(AccMod(acc), n), {}),
@@ -492,7 +498,7 @@ Done == phase = "body" /\ todo = <<>>
 \* name (an occurrence through an import alias keeps its spelling).  Library declarations are declared in m2 (2001..) and
 \* sub/m2 (3001..): the edits in the declaring module are its declaration and its uses there (the harness knows the fixed
 \* texts); the other library module is never touched.
-LibDeclName == <<"a", "c", "A", "C", "k", "T", "A", "a", "R", "R", "f", "mk">>      \* by offset: values a c A C k, type T, type A, field a, constructor R, type R, field f, function mk
+LibDeclName == <<"a", "c", "A", "C", "k", "T", "A", "a", "R", "R", "f", "mk", "N">>      \* by offset: values a c A C k, type T, type A, field a, constructor R, type R, field f, function mk
 DeclName(d) == IF d >= LibBase("m2") THEN LibDeclName[d % 1000]
                ELSE IF d > ItemBase + CtorZ THEN "Z"
                ELSE IF d > ItemBase + FieldB THEN "b" ELSE IF d > ItemBase + FieldA THEN "a"
